@@ -2,7 +2,7 @@
   FcProofs.Lemmas.DiffTable — lemmas for the tabular `_subtract` (C14_table_values).
 -/
 import FcProofs.Lemmas.DiffCells
-namespace Fc
+namespace Fc.C14
 section
 variable {κ : Type} [BEq κ] [LawfulBEq κ]
 
@@ -161,4 +161,4 @@ theorem subColumn_spec (n : Nat) (a1 a2 : NdArr) (res : DType) (hp : promote a1.
       simp; omega
     rw [List.getElem?_eq_none h1, List.getElem?_eq_none (by simp; omega)]
 
-end Fc
+end Fc.C14
